@@ -1,7 +1,8 @@
 (** Shared case type for the producer side of links (C02, C03, C09, C18): the real `End`
     operator (with its `Batcher`s) closes a scripted chain and sends to hand-made downstream
     replicas of one or more blocks; the case records, per downstream block and replica, the
-    batches that arrived, in order. *)
+    batches that arrived, in order, and the readings of the (mock) clock the batchers saw:
+    at setup and while each pulled element was processed (only `Adaptive` looks at them). *)
 From Noir Require Export Base.Elem Model.End Corr.Canon.
 From Coq Require Export NArith.
 Open Scope Z_scope.
@@ -11,14 +12,23 @@ Record lcase := {
   l_mode : batch_mode;
   l_blocks : list nat;                          (* replicas of each downstream block *)
   l_input : list (elem Z * N);                  (* element and, for data, group_by_hash(value) *)
-  l_recv : list (list (list (list (elem Z))))   (* per block, per replica: batches in arrival order *)
+  l_recv : list (list (list (list (elem Z))));  (* per block, per replica: batches in arrival order *)
+  l_t0 : N;                                     (* mock clock (ms) when `End::setup` created the batchers *)
+  l_times : list N                              (* mock clock (ms) while End processed the k-th pulled
+                                                   element; length l_times = length l_input; no reading
+                                                   is exactly max_delay after a batcher's last_send
+                                                   (tick rounding of coarsetime, see Model/End.v) *)
 }.
 
 Definition zel_eqb := elem_eqb Z.eqb.
 Definition batches_eqb := list_eqb (list_eqb zel_eqb).
 
+(** the clock of the case: the k-th recorded reading *)
+Definition case_clock (c : lcase) (k : nat) : N := nth k (l_times c) 0%N.
+
 Definition model_out (c : lcase) :=
-  run (end_machine (l_strategy c) (l_mode c) (l_blocks c)) (map (fun x => (fst x, snd x, 0%N)) (l_input c)).
+  run (end_machine (case_clock c) (l_t0 c) (l_strategy c) (l_mode c) (l_blocks c))
+      (map (fun x => (fst x, snd x, 0%N)) (l_input c)).
 
 (** model batches per (block, replica) *)
 Definition model_recv (c : lcase) (b r : nat) : list (list (elem Z)) :=
@@ -36,3 +46,16 @@ Definition link_corr_ok (c : lcase) : bool :=
   | SRandom => true
   | _ => forallb (fun '(b, r) => batches_eqb (model_recv c b r) (impl_recv c b r)) (all_receivers c)
   end.
+
+(** the constructor takes the clock readings last: [Build_lcase strategy mode blocks input recv
+    t0 times]. `Adaptive(3, 10ms)`, created at 0 ms, elements pulled at 0, 5, 20, 21, 40 ms:
+    [1;2;3] is cut by the size, [4;5] by the delay (40 - 20 > 10); with the same input and
+    readings `Fixed(3)` keeps [4;5] until Terminate. *)
+Example lcase_adaptive_example :
+  link_corr_ok (Build_lcase SOnlyOne (BAdaptive 3 10) [1%nat]
+    [(Item 1, 0%N); (Item 2, 0%N); (Item 3, 0%N); (Item 4, 0%N); (Item 5, 0%N)]
+    [[[[Item 1; Item 2; Item 3]; [Item 4; Item 5]]]] 0%N [0; 5; 20; 21; 40]%N) = true /\
+  link_corr_ok (Build_lcase SOnlyOne (BAdaptive 3 10) [1%nat]
+    [(Item 1, 0%N); (Item 2, 0%N); (Item 3, 0%N); (Item 4, 0%N); (Item 5, 0%N)]
+    [[[[Item 1; Item 2; Item 3]]]] 0%N [0; 5; 20; 21; 40]%N) = false.
+Proof. vm_compute. split; reflexivity. Qed.
